@@ -1,12 +1,14 @@
 (* C41 wire functions.
    input  : [cfg hello]
      cfg   = [minV maxV preferServer suitesOpt priority protos curves poodle ticketsDisabled clientAuth
-              ecdsaKey ruleOpt rules certs cacheMode]
+              ecdsaKey ruleOpt rules certs cacheMode reloads]
               suitesOpt = [] | [[ids]]     ruleOpt = [] | [rule]     rule = [grade protos chacha clientAuth]
               rules = [[sni rule] ...]   certs = [[name ecdsaKey] ...]   cacheMode 0 nil / 1 on / 2 disabled
      hello = [vers suites comp curves points alpn npn sni sessionId ticket cacheEntry]
               ticket, cacheEntry = [0] none | [1] undecryptable/undecodable | [2 vers suite ncerts] a session
-   output : [0 alert] | [1 resume vers suite alpn npn protos] *)
+   output : [R D]   R = [0 alert] | [1 resume vers suite alpn npn protos]
+            D = names of the bfe_tls.Config fields (ticket key excluded) that differ between the configured
+                Config and the listener's live Config after `reloads` UpdateSessionTicketKey calls *)
 From Coq Require Import List ZArith Bool.
 From Bfe Require Import lib.Val lib.Bytes gen.TlsSuites model.TlsNego.
 Import ListNotations.
@@ -50,7 +52,7 @@ Definition suites_opt (v : val) : option (option (list Z)) :=
 
 Definition cfg_of (v : val) : option config :=
   match v with
-  | VL [VZ mn; VZ mx; VZ pf; so; pr; ps; cu; VZ po; VZ td; VZ ca; VZ ec; ro; rs; ce; VZ cm] =>
+  | VL [VZ mn; VZ mx; VZ pf; so; pr; ps; cu; VZ po; VZ td; VZ ca; VZ ec; ro; rs; ce; VZ cm; VZ rl] =>
     match suites_opt so, as_LZ pr, as_LB ps, as_LZ cu, rule_of ro with
     | Some so', Some pr', Some ps', Some cu', Some ro' =>
       match rules_of rs, certs_of ce with
@@ -58,7 +60,7 @@ Definition cfg_of (v : val) : option config :=
         Some {| c_min := mn; c_max := mx; c_prefer_server := zb pf; c_suites := so'; c_priority := pr';
                 c_protos := ps'; c_curves := cu'; c_poodle := zb po; c_tickets_disabled := zb td;
                 c_client_auth := ca; c_ecdsa := zb ec; c_rule := ro'; c_rules := rs'; c_certs := ce';
-                c_cache := cm |}
+                c_cache := cm; c_reloads := rl |}
       | _, _ => None
       end
     | _, _, _, _, _ => None
@@ -103,7 +105,7 @@ Definition decode (i : val) : option (config * hello) :=
 
 Definition run_C41 (i : val) : val :=
   match decode i with
-  | Some (c, h) => enc_outcome (negotiate c h)
+  | Some (c, h) => VL [enc_outcome (fst (serve c h)); vLB (snd (serve c h))]
   | None => VErr 0
   end.
 Definition agree_C41 (i o : val) : bool := val_eqb (run_C41 i) o.
@@ -154,8 +156,9 @@ Definition prop_C41 (i o : val) : bool :=
   | Some (c0, h) =>
     let c := eff c0 h in     (* the rule and certificate selected for this connection's server name *)
     match o with
-    | VL [VZ 0; VZ _] => true                                   (* refused: nothing was negotiated *)
-    | VL [VZ 1; VZ _; VZ v; VZ s; VB alpn; VZ npn; ps] =>
+    (* whatever reloads happened, the live Config equals the configured one outside the ticket key *)
+    | VL [VL [VZ 0; VZ _]; VL []] => true                       (* refused: nothing was negotiated *)
+    | VL [VL [VZ 1; VZ _; VZ v; VZ s; VB alpn; VZ npn; ps]; VL []] =>
       spec_version_ok c h v && spec_suite_ok c h v s && spec_alpn_ok c h alpn &&
       negb (spec_scsv_must_refuse c h) &&
       match as_LB ps with
@@ -173,7 +176,7 @@ Definition prop_C41 (i o : val) : bool :=
 Definition kf_C41 (i : val) : Z :=
   match decode i with
   | Some (c, h) =>
-    match negotiate c h with
+    match negotiate (live c) h with
     | Done _ _ _ alpn _ _ => if spec_alpn_ok (eff c h) h alpn then 0 else 3
     | Alert _ => 0
     end
